@@ -8,7 +8,7 @@ namespace Proofs.Exc
 open Model.Exc
 open Model.Hier (Name Cls Graph getClass isThrown isClassValue R throwableName exceptionName errorName)
 open Spec.Hier (IsA NoCycle csucc ThrowableOK)
-open Spec.Exc (Rules TypeOk raise pick iterate afterCatch resume handlers ThrowableRooted ClauseOk FirstMatch NoMatch)
+open Spec.Exc (Rules TypeOk raise pick iterate afterCatch resume handlers returned ThrowableRooted ClauseOk FirstMatch NoMatch)
 
 theorem yes_iff_of_decides {r : R} {P : Prop} (h : Proofs.Hier.Decides r P) : (r == R.yes) = true ↔ P := by
   rcases h with ⟨h1, h2⟩ | ⟨h1, h2⟩ <;> subst h1 <;> simp [h2] <;> decide
@@ -76,11 +76,7 @@ theorem loopN_eq_iterate {f g : List Ev → Res} (h : ∀ t, f t = g t) (k : Nat
     rcases hg : g tr with ⟨o, tr'⟩
     cases o <;> simp [ih]
 
-theorem callResult_eq (r : Res) :
-    callResult r = (match r.1 with
-      | .ret v => (.normal, r.2 ++ [.result (some v)])
-      | .normal => (.normal, r.2 ++ [.result none])
-      | _ => r) := by
+theorem callResult_eq (r : Res) : callResult r = returned r := by
   rcases r with ⟨o, tr⟩; cases o <;> rfl
 
 /-- the selected handler, as the model's catch loop computes it -/
@@ -107,23 +103,23 @@ theorem catchPhase_eq (sub : Thrown → Name → Bool) (hs : List (List Name × 
   case thr t => exact key t
   case panic => exact key .internal
 
-theorem finallyPhase_eq (i : Nat) (hasFin : Bool) (sf : List Ev → Res) (r2 : Res) :
-    finallyPhase i hasFin (fun t => protect (sf t)) r2 =
-      if hasFin then resume r2.1 (sf (r2.2 ++ [.enterFinally i])) else r2 := by
+theorem finallyPhase_eq (a i : Nat) (hasFin : Bool) (sf : List Ev → Res) (r2 : Res) :
+    finallyPhase a i hasFin (fun t => protect (sf t)) r2 =
+      if hasFin then resume r2.1 (sf (r2.2 ++ [.enterFinally a i])) else r2 := by
   unfold finallyPhase
   cases hasFin
   · simp
   · simp only [if_true, guard_eq, resume]
-    generalize sf (r2.2 ++ [.enterFinally i]) = f
+    generalize sf (r2.2 ++ [.enterFinally a i]) = f
     rcases f with ⟨o, tr3⟩
     cases o <;> simp [raise]
 
-theorem tryStmt_eq (sub : Thrown → Name → Bool) (hs : List (List Name × Spec.Exc.Handler)) (i : Nat) (hasFin : Bool)
+theorem tryStmt_eq (sub : Thrown → Name → Bool) (hs : List (List Name × Spec.Exc.Handler)) (a i : Nat) (hasFin : Bool)
     {runBody sb : List Ev → Res} {cl : Thrown → List Ev → Res} {runFin sf : List Ev → Res}
     (hb : ∀ t, runBody t = sb t) (hc : ∀ x t, cl x t = picked sub hs 0 x t) (hf : ∀ t, runFin t = sf t) (tr : List Ev) :
-    tryStmt i hasFin runBody cl runFin tr =
-      (let pending := afterCatch sub hs (sb (tr ++ [.enterTry i]))
-       if hasFin then resume pending.1 (sf (pending.2 ++ [.enterFinally i])) else pending) := by
+    tryStmt a i hasFin runBody cl runFin tr =
+      (let pending := afterCatch sub hs (sb (tr ++ [.enterTry a i]))
+       if hasFin then resume pending.1 (sf (pending.2 ++ [.enterFinally a i])) else pending) := by
   unfold tryStmt
   have : (fun t => protect (runFin t)) = (fun t => protect (sf t)) := by funext t; rw [hf]
   simp only [this, hb, catchPhase_eq sub hs hc, finallyPhase_eq]
@@ -131,8 +127,9 @@ theorem tryStmt_eq (sub : Thrown → Name → Bool) (hs : List (List Name × Spe
 /-! ### the refinement -/
 
 mutual
-theorem exec_refines (G : Graph) (hn : NoCycle (csucc G)) (hroot : ThrowableRooted G) (R : Rules) (hR : R.Decides G) :
-    ∀ (s : Stmt) (cur : Option Thrown) (tr : List Ev), exec G Cfg.fixed cur s tr = Spec.Exc.exec R cur s tr
+theorem exec_refines (G : Graph) (hn : NoCycle (csucc G)) (hroot : ThrowableRooted G) (R : Rules) (hR : R.Decides G)
+    (A : Act) :
+    ∀ (s : Stmt) (cur : Option Thrown) (tr : List Ev), exec G Cfg.fixed cur A s tr = Spec.Exc.exec R cur A s tr
   | .echo m, cur, tr => by simp [exec, Spec.Exc.exec]
   | .throw c st, cur, tr => by simp [exec, Spec.Exc.exec, hR.newObj]
   | .rethrow, cur, tr => by cases cur <;> simp [exec, Spec.Exc.exec, rethrown, Cfg.fixed]
@@ -142,54 +139,66 @@ theorem exec_refines (G : Graph) (hn : NoCycle (csucc G)) (hroot : ThrowableRoot
   | .cont, cur, tr => by simp [exec, Spec.Exc.exec]
   | .loop k b, cur, tr => by
     simp only [exec, Spec.Exc.exec]
-    exact loopN_eq_iterate (fun t => execB_refines G hn hroot R hR b cur t) k tr
+    exact loopN_eq_iterate (fun t => execB_refines G hn hroot R hR A b cur t) k tr
   | .call b, cur, tr => by
     simp only [exec, Spec.Exc.exec]
-    rw [execB_refines G hn hroot R hR b none tr]
-    generalize Spec.Exc.execB R none b tr = r
-    rcases r with ⟨o, t⟩
-    cases o <;> rfl
+    rw [execB_refines G hn hroot R hR A b none tr, callResult_eq]
+  | .callf k, cur, tr => by
+    simp only [exec, Spec.Exc.exec, callNamed, callResult_eq]
   | .try_ i b cs hasFin fin, cur, tr => by
     simp only [exec, Spec.Exc.exec, Cfg.fixed, if_true]
-    exact tryStmt_eq R.sub (handlers R i cs) i hasFin
-      (fun t => execB_refines G hn hroot R hR b cur t)
-      (fun x t => execC_refines G hn hroot R hR cs i 0 x t)
-      (fun t => execB_refines G hn hroot R hR fin cur t) tr
-theorem execB_refines (G : Graph) (hn : NoCycle (csucc G)) (hroot : ThrowableRooted G) (R : Rules) (hR : R.Decides G) :
-    ∀ (b : Block) (cur : Option Thrown) (tr : List Ev), execB G Cfg.fixed cur b tr = Spec.Exc.execB R cur b tr
+    exact tryStmt_eq R.sub (handlers R A i cs) A.lvl i hasFin
+      (fun t => execB_refines G hn hroot R hR A b cur t)
+      (fun x t => execC_refines G hn hroot R hR A cs i 0 x t)
+      (fun t => execB_refines G hn hroot R hR A fin cur t) tr
+theorem execB_refines (G : Graph) (hn : NoCycle (csucc G)) (hroot : ThrowableRooted G) (R : Rules) (hR : R.Decides G)
+    (A : Act) :
+    ∀ (b : Block) (cur : Option Thrown) (tr : List Ev), execB G Cfg.fixed cur A b tr = Spec.Exc.execB R cur A b tr
   | .nil, cur, tr => by simp [execB, Spec.Exc.execB]
   | .cons s rest, cur, tr => by
-    rw [execB, Spec.Exc.execB, exec_refines G hn hroot R hR s cur tr]
-    rcases hs : Spec.Exc.exec R cur s tr with ⟨o, tr'⟩
-    cases o <;> simp [execB_refines G hn hroot R hR rest cur tr']
-theorem execC_refines (G : Graph) (hn : NoCycle (csucc G)) (hroot : ThrowableRooted G) (R : Rules) (hR : R.Decides G) :
+    rw [execB, Spec.Exc.execB, exec_refines G hn hroot R hR A s cur tr]
+    rcases hs : Spec.Exc.exec R cur A s tr with ⟨o, tr'⟩
+    cases o <;> simp [execB_refines G hn hroot R hR A rest cur tr']
+theorem execC_refines (G : Graph) (hn : NoCycle (csucc G)) (hroot : ThrowableRooted G) (R : Rules) (hR : R.Decides G)
+    (A : Act) :
     ∀ (cs : Catches) (i k : Nat) (x : Thrown) (tr : List Ev),
-      execC G Cfg.fixed i k x cs tr = picked R.sub (handlers R i cs) k x tr
+      execC G Cfg.fixed A i k x cs tr = picked R.sub (handlers R A i cs) k x tr
   | .nil, i, k, x, tr => by simp [execC, handlers, picked, pick]
   | .cons tys b rest, i, k, x, tr => by
     rw [execC, handlers, picked, pick, clauseMatches_eq_any G hn hroot R hR]
     split
-    · simp [execB_refines G hn hroot R hR b (some x)]
-    · rw [execC_refines G hn hroot R hR rest i (k+1) x tr, picked]
+    · simp [execB_refines G hn hroot R hR A b (some x)]
+    · rw [execC_refines G hn hroot R hR A rest i (k+1) x tr, picked]
 end
+
+/-- calls refine calls, at every level: the knot of `envAt` is tied the same way on both sides -/
+theorem envAt_refines (G : Graph) (hn : NoCycle (csucc G)) (hroot : ThrowableRooted G) (R : Rules) (hR : R.Decides G)
+    (fns : List Block) : ∀ n, envAt G Cfg.fixed fns n = Spec.Exc.envAt R fns n
+  | 0 => by funext k tr; simp [envAt, Spec.Exc.envAt]
+  | n+1 => by
+    funext k tr
+    rw [envAt, Spec.Exc.envAt, envAt_refines G hn hroot R hR fns n]
+    cases fns[k]? with
+    | some b => exact execB_refines G hn hroot R hR _ b none tr
+    | none => rfl
 
 /-! ### first matching clause -/
 
-theorem execC_first (G : Graph) (hn : NoCycle (csucc G)) (hroot : ThrowableRooted G) (cfg : Cfg) (i : Nat) (x : Thrown)
+theorem execC_first (G : Graph) (hn : NoCycle (csucc G)) (hroot : ThrowableRooted G) (cfg : Cfg) (A : Act) (i : Nat) (x : Thrown)
     {cs : Catches} {k₀ k : Nat} {body : Block} (h : FirstMatch G x cs k₀ k body) (tr : List Ev) :
-    execC G cfg i k₀ x cs tr = execB G cfg (some x) body (tr ++ [.caught i k x]) := by
+    execC G cfg A i k₀ x cs tr = execB G cfg (some x) A body (tr ++ [.caught A.lvl i k x]) := by
   induction h with
   | here hok => rw [execC, if_pos ((clauseMatches_iff G hn hroot _ x).2 hok)]
   | later hno _ ih =>
     rw [execC, if_neg (fun hm => hno ((clauseMatches_iff G hn hroot _ x).1 hm))]
     exact ih
 
-theorem execC_none (G : Graph) (hn : NoCycle (csucc G)) (hroot : ThrowableRooted G) (cfg : Cfg) (i : Nat) (x : Thrown) :
-    ∀ (cs : Catches) (k₀ : Nat), NoMatch G x cs → ∀ tr, execC G cfg i k₀ x cs tr = (.thr x, tr)
+theorem execC_none (G : Graph) (hn : NoCycle (csucc G)) (hroot : ThrowableRooted G) (cfg : Cfg) (A : Act) (i : Nat) (x : Thrown) :
+    ∀ (cs : Catches) (k₀ : Nat), NoMatch G x cs → ∀ tr, execC G cfg A i k₀ x cs tr = (.thr x, tr)
   | .nil, _, _, tr => by simp [execC]
   | .cons tys b rest, k₀, h, tr => by
     rw [execC, if_neg (fun hm => h.1 ((clauseMatches_iff G hn hroot _ x).1 hm))]
-    exact execC_none G hn hroot cfg i x rest (k₀+1) h.2 tr
+    exact execC_none G hn hroot cfg A i x rest (k₀+1) h.2 tr
 
 /-- every clause list either has a first matching clause or none at all -/
 theorem first_or_none (G : Graph) (x : Thrown) : ∀ (cs : Catches) (k₀ : Nat),
